@@ -163,8 +163,15 @@ def describe(v):
         return v
     if isinstance(v, dict):
         return {str(k): describe(x) for k, x in v.items()}
+    if isinstance(v, (set, frozenset)):
+        return sorted(describe(x) for x in v)
+    if not hasattr(v, '__dict__'):
+        return repr(v)[:200]
     d = {'$class': type(v).__name__}
     for k, x in vars(v).items():
+        if isinstance(x, (list, dict, set)):
+            d[k] = describe(x)
+            continue
         if isinstance(x, (int, str, bool)) or x is None:
             d[k] = x
     return d
@@ -177,7 +184,9 @@ def _try_one(ex, c, qual, names, conc, args0, cz, call):
     import contextlib
     info = {'input': {n: describe(v) for n, v in conc.items()}}
     fi = ex.repo.funcs[qual]
-    if fi.cls:
+    if getattr(c, 'native_callable', None) is not None:
+        f = c.native_callable(ex)
+    elif fi.cls:
         selfv = conc[names[0]]
         f = getattr(type(selfv), fi.node.name)
     else:
@@ -204,6 +213,12 @@ def _try_one(ex, c, qual, names, conc, args0, cz, call):
     ex2.cur_func = qual
     st = State(ex2)
     memo = {}
+    if getattr(c, 'native_only', False):
+        why = c.native_post(dict(zip(names, snapshot)), result)
+        info['status'] = 'reproduced' if why else 'not-reproduced'
+        if why:
+            info['failed_clauses'] = ['spec-function: ' + str(why)[:300]]
+        return info
     A = {n: embed(ex2, v, memo) for n, v in zip(names, snapshot)}
     for k, v in args0.items():
         if k not in A:
